@@ -288,6 +288,10 @@ func checkCmd(id, tier string) int {
 		"non_std_imports_of_code_under_test": bi.imports,
 		"known_findings_hit":                 m.Known,
 	}
+	if pc.needGen {
+		cov["lexers_generated_by_this_trees_generator"] = generatedOK
+		cov["optional_fixtures_not_generated_or_not_compiling_on_this_tree"] = append([]string{}, optionalRejected...)
+	}
 	if pc.race {
 		cov["stmt_level_switches"] = m.StmtSwitch
 		cov["hot_site_switches"] = m.HotSwitch
@@ -299,6 +303,9 @@ func checkCmd(id, tier string) int {
 	ev := &evidence{PropertyID: id, Tier: tier, Seed: int64(seed), Level: pc.level, Coverage: cov, Assumptions: pc.assumptions, WallS: wall, Violations: len(reported)}
 	writeEvidence(pc, ev)
 
+	if m.SlowestRunS > 5 {
+		fmt.Printf("simcheck: slowest single run: index %d, %.1fs of real time\n", m.SlowestRun, m.SlowestRunS)
+	}
 	fmt.Printf("simcheck: %d runs (%d distinct non-trivial) in %.1fs batch / %.1fs wall; faults fired: %s\n", m.Evaluations, len(m.distinct), batchSeconds, wall, renderCounts(m.Faults))
 	for _, f := range knownList {
 		key := f.Signature + f.SignatureRegex + "|" + f.Input + f.InputRegex
